@@ -37,7 +37,7 @@ REQUIRED_THEOREMS = ['unitmap_lookup', 'unitmap_listed', 'key_assembly_suffix', 
                      'extractPre_lockstep_returns', 'filter_ambiguity_only_removes', 'filter_ambiguity_preserves_pairwise',
                      'filter_ambiguity_entry', 'filter_ambiguity_identity',
                      'separate_units_appended_disjoint', 'separate_units_pairwise_disjoint', 'expand_half_shape',
-                     'expand_half_text_is_slice_partial', 'nwu_expand_half_stale_witness',
+                     'expand_half_text_is_slice_partial', 'nwu_extract_text_is_slice', 'nwu_expand_half_stale_witness',
                      'nwu_prefix_only_result', 'nwu_prefix_only_suppressed_witness', 'merged_result_text_is_slice']
 RULE = ('exhaustive over every (culture, model, prefix|suffix, unit, spelling) row of the tables wired into the registered '
         'NumberWithUnit models (first extractor/parser pair of each model) × numerals {7} (quick) or {7, 1,234, 0.5 in the '
@@ -234,6 +234,8 @@ def correspond(ctx):
 
     # (f) the extractor: recorded calls of NumberWithUnitExtractor.extract replayed through RTV.UnitExtract
     extractor_level(ctx, cfgs)
+    # (g) the whole NumberWithUnitParser.parse (unit + number part) on what the real extractor hands over
+    parser_level(ctx)
 
     # ------------------------------------------------------------------ pipeline: every row through recognize_*
     jobs = []
@@ -440,9 +442,18 @@ def extractor_level(ctx, cfgs):
                    failing_input={'op': 'NumberWithUnitExtractor.extract', 'model_type': 'CurrencyModel', 'culture': 'en-us',
                                   'source': uxrec.PROBE_SELECT, 'observed': variant['probe'], 'expected': [(18, 9, '7 dollars')]},
                    property_fails=False)
-    ctx.extra['expand_half_variant'] = ('numbers keep their absolute start (half-stale-start.diff applied)' if variant['pristine_half']
-                                        else 'expand_half_suffix sees the relative starts the loop wrote (nwu_expand_half_stale_witness): '
-                                        '%r -> %r' % (uxrec.PROBE_HALF, variant['probe_half']))
+    ctx.extra['expand_half_variant'] = ('numbers keep their absolute start (fix half-stale-start)' if variant['pristine_half']
+                                        else 'expand_half_suffix sees the relative starts the loop wrote: %r -> %r' % (
+                                            uxrec.PROBE_HALF, variant['probe_half']))
+    if not variant['pristine_half']:
+        # fixed in /repo (7bd823db6); seeing the old variant again is a regression (C01's property; here the theorem
+        # nwu_extract_text_is_slice no longer describes the code). The model keeps following the tree.
+        ctx.report('correspondence', 'half-stale-start',
+                   '%r (zh-cn currency): expand_half_suffix glues the half number onto an unrelated result: %r; theorem '
+                   'nwu_extract_text_is_slice no longer describes the code' % (uxrec.PROBE_HALF, variant['probe_half']),
+                   failing_input={'op': 'NumberWithUnitExtractor.extract', 'model_type': 'CurrencyModel', 'culture': 'zh-cn',
+                                  'source': uxrec.PROBE_HALF, 'observed': variant['probe_half'],
+                                  'expected_first': (0, 2, uxrec.PROBE_HALF[:2])}, property_fails=False)
     chunks = [({'lockstep': variant['lockstep'], 'pristine_half': variant['pristine_half']}, tasks[i::64]) for i in range(64)]
     with mp.Pool(min(16, os.cpu_count() or 4)) as pool_:
         results = pool_.map(uxrec.run_chunk, chunks)
@@ -490,6 +501,85 @@ def extractor_level(ctx, cfgs):
     if w != ['4', '5']:
         ctx.report('correspondence', 'nwu-witness', 'furthest-reach witness: compiled model answers %r, theorem says [4, 5]' % (w,),
                    failing_input={'op': 'ux.maxsuffix witness'})
+
+
+def parser_level(ctx):
+    """Unit level for `RTV.Unit.parseFull`: every result of the real extractor (rows, seeded sentences, half phrases) goes
+    through the REAL `NumberWithUnitParser.parse`; the internal number parser's `resolution_str` for the number and for the
+    half are recorded and handed to the model, which must give the same outcome: no value / UnitValue(number, unit) +
+    resolution_str / the exception."""
+    from recognizers_number_with_unit.number_with_unit.utilities import DictionaryUtility
+    r = ctx.rng('ux-parse')
+    groups = {}
+    for (rec_, mt, cul) in recog.all_pairs():
+        if rec_ != 'NumberWithUnit':
+            continue
+        m = recog.get_model(rec_, mt, cul)
+        for k, ep in enumerate(m.extractor_parser):
+            exc, pc = ep.extractor.config, ep.parser.config
+            tables = [t for t in (exc.suffix_list, exc.prefix_list) if t]
+            rebound = {}
+            for t in tables:
+                DictionaryUtility.bind_dictionary(t, rebound)
+            if list(rebound.items()) != list(pc.unit_map.items()):
+                continue
+            cjk = (cul in CJK) and k == 0
+            rows = rows_of(exc)
+            qs = []
+            for kind, unit, form in rows:
+                for nk, num, val in numerals(cul, ctx.thorough):
+                    sep = '' if cjk else ' '
+                    qs.append((num + sep + form) if kind == 'suffix' else (form + sep + num))
+            sforms = [f for (kd, u, f) in rows if kd == 'suffix']
+            pforms = [f for (kd, u, f) in rows if kd == 'prefix']
+            qs += uxrec.seeded_sentences(r, sforms, pforms, getattr(exc, 'connector_token', '') or '', cjk,
+                                         400 if ctx.thorough else 60)
+            if cjk:
+                qs += [n + f + '半' for f in sforms[:40] for n in ('5', '1.5', '三')] + [uxrec.PROBE_HALF, '5元 $ 半']
+            tf = [str(len(tables))]
+            for t in tables:
+                tf += table_fields(t)
+            groups[(mt, cul, k)] = (cps(getattr(pc, 'connector_token', '') or ''), tf, qs)
+    tasks = [(mt, cul, k, 'parse', q) for (mt, cul, k), (_c, _tf, qs) in groups.items() for q in qs]
+    chunks = [tasks[i::64] for i in range(64)]
+    with mp.Pool(min(16, os.cpu_count() or 4)) as pool_:
+        results = pool_.map(uxrec.run_parse_chunk, chunks)
+    per = {}
+    hist = {}
+    for res in results:
+        for (t, rows) in res:
+            for row in rows:
+                if row[5] == 'number-parser-raised':
+                    hist['internal number parser raised (not compared)'] = hist.get('internal number parser raised (not compared)', 0) + 1
+                    continue
+                per.setdefault(t[:3], []).append((t[4], row))
+    lines, metas = [], []
+    for key, items in sorted(per.items()):
+        conn, tf, _qs = groups[key]
+        for a in range(0, len(items), 1500):
+            part = items[a:a + 1500]
+            f = []
+            for (_q, (text, ns, nl, nres, hf, impl)) in part:
+                f += [cps(text), str(ns), str(nl), nres, hf]
+            lines.append('\t'.join(['parsefulls', conn] + tf + [str(len(part))] + f))
+            metas.append((key, part))
+    answers = common.driver(lines) if lines else []
+    for (key, part), ans in zip(metas, answers):
+        got = ans.split(';')
+        for (q, (text, ns, nl, nres, hf, impl)), g in zip(part, got + ['?'] * (len(part) - len(got))):
+            ctx.count('NumberWithUnitParser.parse (unit + number part) on real extract results')
+            kind = 'half' if hf != 'none' else impl.split(':')[0]
+            hist[kind] = hist.get(kind, 0) + 1
+            if impl.startswith('u:'):
+                ctx.nontriv(('parsefull', key, text))
+            if g != impl:
+                ctx.report('correspondence', 'nwu-parse-full', '%s %s pair %d: NumberWithUnitParser.parse on %r (from %r): '
+                           'implementation %s, model %s' % (key[0], key[1], key[2], text, q, impl, g),
+                           failing_input={'op': 'NumberWithUnitParser.parse', 'model_type': key[0], 'culture': key[1],
+                                          'pair': key[2], 'source': q, 'extract_text': text, 'number_start': ns,
+                                          'number_length': nl, 'number_resolution': nres, 'half': hf,
+                                          'implementation': impl, 'model': g}, property_fails=False)
+    ctx.extra['parser_outcomes'] = hist
 
 
 def pc_expected(cfgs, mt, cul, form):
